@@ -27,7 +27,7 @@ func (b *Bool) Store(v bool) {
 		b.real.Store(v)
 		return
 	}
-	b.cell.Store(b, v)
+	b.cell.Store(b, b.real.Load(), v)
 }
 
 func (b *Bool) CompareAndSwap(old, new bool) bool {
@@ -42,6 +42,6 @@ func (b *Bool) Swap(new bool) bool {
 		return b.real.Swap(new)
 	}
 	old, _ := b.cell.Load(b, b.real.Load()).(bool)
-	b.cell.Store(b, new)
+	b.cell.Store(b, b.real.Load(), new)
 	return old
 }
